@@ -57,7 +57,9 @@ MCSetCands ==
           [] pk[2] = "name"  -> {StrV(<<"b", "o", "b">>), StrV(<<" ", "p", "a", "d", " ", "<", "&", ">", "\t", "\n">>)}
           \* (a blank secret is a secret)
           [] pk[2] = "pw"    -> {StrV(<<"s", "3", "c", "r", "e", "t", "!", "p", "w">>), StrV(<<>>), LongSecret, StrV(<<" ">>)}
-          [] pk[2] = "hash"  -> {StrV(<<"h", "u", "n", "t", "e", "r", "2", "!">>)}
+          \* (an imported, unsalted hash: a DigestValue the application built with an empty salt)
+          [] pk[2] = "hash"  -> {StrV(<<"h", "u", "n", "t", "e", "r", "2", "!">>),
+                                 [t |-> "digest", alg |-> "md5", pt |-> StrV(<<"l", "e", "g", "a", "c", "y", "#", "5">>), salt |-> "empty"]}
           \* (60 bytes: longer than one 76-column line of base64)
           [] pk[2] = "blob"  -> {BytesV(<<0, 255, 65>>), BytesV(<<>>), BytesV([i \in 1..60 |-> (i * 7) % 256])}
           [] pk[2] = "bl"    -> {ListV(<<BytesV(<<1, 2>>), StrV(<<"a", "b">>)>>)}
